@@ -99,6 +99,45 @@ fn child_transcript(bin: &std::path::Path, cfg: &RunCfg, scratch: &str, prop: &s
         .map(|l| l.to_string())
 }
 
+/// Runs the configuration in a child process; None if the child survives, otherwise whether it
+/// died after the terminal action (drop / into_seq_iter) had begun.
+fn child_abort_in_terminal(
+    bin: &std::path::Path,
+    cfg: &RunCfg,
+    scratch: &str,
+    prop: &str,
+) -> Option<bool> {
+    let file = ReplayFile {
+        property: prop.to_string(),
+        base_seed: 0,
+        run_index: 0,
+        class: "trial".into(),
+        message: String::new(),
+        event_hash: 0,
+        minimised: false,
+        original_ops: 0,
+        original_deviations: 0,
+        cfg: cfg.clone(),
+        trace: vec![],
+    };
+    let path = format!("{scratch}/trial-{}.json", std::process::id());
+    std::fs::write(&path, serde_json::to_string(&file).ok()?).ok()?;
+    let o = Command::new(bin)
+        .arg("transcript")
+        .arg(&path)
+        .env("ORXSIM_PHASE_MARK", "1")
+        .output()
+        .ok()?;
+    if o.status.success() {
+        return None;
+    }
+    Some(
+        String::from_utf8_lossy(&o.stdout)
+            .lines()
+            .any(|l| l == "PHASE terminal"),
+    )
+}
+
 /// (runs, workers) per property and tier.
 pub fn budget(prop: &str, tier: &str) -> (u64, usize) {
     let quick: u64 = match prop {
@@ -410,14 +449,26 @@ pub fn check(prop: &str, tier: &str) -> i32 {
     confirmed_aborts.sort();
     confirmed_aborts.dedup();
     for (idx, variant) in confirmed_aborts.iter().take(5) {
-        if abort_in_scope {
-            let cfg0 = crate::gen::generate(prop, seed, *idx);
-            let bin = exes[*variant].clone();
+        let cfg0 = crate::gen::generate(prop, seed, *idx);
+        let bin = exes[*variant].clone();
+        // C10: a process that dies inside into_seq_iter (or while its result is consumed and
+        // dropped) did not return the remainder; a death before that is not C10's business
+        let c10_terminal = prop == "C10"
+            && matches!(cfg0.terminal, crate::work::Terminal::IntoSeq(_))
+            && child_abort_in_terminal(&bin, &cfg0, &outdir, prop) == Some(true);
+        if abort_in_scope || c10_terminal {
             let original_ops = cfg0.pre.len() + cfg0.threads.iter().map(|t| t.len()).sum::<usize>();
             let (cfg, _) = crate::replay::minimise_external(
                 cfg0,
                 std::time::Duration::from_secs(25),
-                |c| child_transcript(&bin, c, &outdir, prop).is_none(),
+                |c| {
+                    if c10_terminal {
+                        matches!(c.terminal, crate::work::Terminal::IntoSeq(_))
+                            && child_abort_in_terminal(&bin, c, &outdir, prop) == Some(true)
+                    } else {
+                        child_transcript(&bin, c, &outdir, prop).is_none()
+                    }
+                },
             );
             let file = ReplayFile {
                 property: prop.to_string(),
@@ -425,8 +476,13 @@ pub fn check(prop: &str, tier: &str) -> i32 {
                 run_index: *idx,
                 class: "process-abort".to_string(),
                 message: format!(
-                    "the {} build of the simulator executing this run was terminated (abort / segmentation fault)",
-                    VARIANTS[*variant]
+                    "the {} build of the simulator executing this run was terminated (abort / segmentation fault){}",
+                    VARIANTS[*variant],
+                    if c10_terminal {
+                        " after into_seq_iter had been called: the remainder was not returned"
+                    } else {
+                        ""
+                    }
                 ),
                 event_hash: *variant as u64,
                 minimised: true,
@@ -631,7 +687,7 @@ pub fn check(prop: &str, tier: &str) -> i32 {
         }
         return 2;
     }
-    if st.runs == 0 {
+    if st.runs == 0 && exit_code == 0 {
         eprintln!("harness error: no run completed");
         return 2;
     }
